@@ -269,7 +269,26 @@ class Scenario:
 _UID = [0]
 
 
+def run_codec(case):
+    """direct calls of the real prepare_label / parse_label"""
+    from taskiq.labels import parse_label, prepare_label
+    out = []
+    for it in case["codec"]:
+        if "prep" in it:
+            s, t = prepare_label(dec(it["prep"]))
+            out.append({"s": [ord(c) for c in s], "t": t, "is_str": type(s) is str})
+        else:
+            cps, t = it["parse"]
+            try:
+                out.append({"v": enc(parse_label("".join(map(chr, cps)), t))})
+            except Exception as e:  # noqa: BLE001
+                out.append({"raise": type(e).__name__})
+    return {"codec": out, "other_str": {k: [ord(c) for c in str(dec({"t": "other", "k": k}))] for k in OTHER_KINDS}}
+
+
 def run_case(case, opts):
+    if "codec" in case:
+        return run_codec(case)
     _UID[0] += 1
     uid = "%d_%d" % (id(case) % 9973, _UID[0])
 
